@@ -119,7 +119,9 @@ pub fn gen_expr(rng: &mut Rng, flavor: Flavor) -> String {
         }
         Flavor::Grammar => {
             // one expression in twenty has long lists (5-24 items per field)
-            let max_items = if rng.chance(1, 20) { 24 } else { 4 };
+            // one expression in twenty has long lists: 5-24 items per field, sometimes up to 90
+            // (a crontab that spells out its minutes), well beyond any fixed-size buffer
+            let max_items = if rng.chance(1, 20) { if rng.chance(1, 3) { 90 } else { 24 } } else { 4 };
             for (i, slot) in f.iter_mut().enumerate() {
                 *slot = gen_list(rng, i, max_items);
             }
@@ -374,6 +376,35 @@ pub fn boundary_shifted(rng: &mut Rng, expr: &str) -> Option<String> {
         }
     }
     None
+}
+
+/// Long lists: every value of a field spelled out (in order, reversed, with duplicates), and the
+/// same with an invalid or out-of-range item at the very end (validation must reach the end).
+pub fn long_list_family() -> Vec<String> {
+    let mut out = Vec::new();
+    for idx in 0..5 {
+        let (lo, hi) = (LO[idx], HI[idx]);
+        let all: Vec<String> = (lo..=hi).map(|v| v.to_string()).collect();
+        let mut rev = all.clone();
+        rev.reverse();
+        let twice: Vec<String> = all.iter().chain(all.iter()).cloned().collect();
+        let evens: Vec<String> = (lo..=hi).filter(|v| v % 2 == 0).map(|v| v.to_string()).collect();
+        let evens3: Vec<String> = evens.iter().chain(evens.iter()).chain(evens.iter()).cloned().collect();
+        for l in [&all, &rev, &twice, &evens, &evens3] {
+            let joined = l.join(",");
+            out.push(with_field(idx, &joined));
+            for tail in [format!("{}", hi + 1), "x".to_string(), "".to_string(), "*/0".to_string(), format!("{}-{}", hi, lo)] {
+                out.push(with_field(idx, &format!("{},{}", joined, tail)));
+            }
+        }
+    }
+    // a long expression overall: every field spelled out (several hundred bytes)
+    let full: Vec<String> = (0..5).map(|idx| (LO[idx]..=HI[idx]).map(|v| v.to_string()).collect::<Vec<_>>().join(",")).collect();
+    out.push(full.join(" "));
+    let mut odd = full.clone();
+    odd[4] = "1,2,3,4,5,6".into();
+    out.push(odd.join(" "));
+    out
 }
 
 /// One near-progression list for field `idx`: the value set of `*/s` with one element removed,
